@@ -88,62 +88,95 @@ def run(ctx, model):
     # ---------------- R-FLAGSRC
     P = model.pregex
     isrep = model.method(PRE, "Pregex", "_is_repeatable")
-    body = [s for s in isrep.node.body if not (isinstance(s, ast.Expr) and isinstance(s.value, ast.Constant))]
-    fld = None
-    if len(body) == 1 and isinstance(body[0], ast.Return) and isinstance(body[0].value, ast.Attribute) \
-            and isinstance(body[0].value.value, ast.Name) and body[0].value.value.id == "self":
-        fld = mangle(body[0].value.attr, "Pregex")
-    ctx.instance("R-FLAGSRC", key="accessor", sample=f"_is_repeatable returns self.{fld}")
-    if fld is None:
-        ctx.violation("R-FLAGSRC", isrep.relpath, isrep.short, "return", "_is_repeatable does not return the flag field",
-                      isrep.node.lineno)
-        from ..absdom import F
-        fld = F(model).repeatable
-    writes = []
-    for fn in model.all_functions():
-        clsname = fn.cls.name if fn.cls else None
-        for node in ast.walk(fn.node):
-            if isinstance(node, ast.Attribute) and isinstance(node.ctx, (ast.Store, ast.Del)) \
-                    and mangle(node.attr, clsname) == fld:
-                writes.append((fn, node))
-    ctx.instance("R-FLAGSRC", key="writers", sample=f"{len(writes)} store(s) to {fld}: {[w[0].short for w in writes]}")
+    from ..absdom import layout as _layout, slot_field as _slot_field, make_operand
     init = model.method(PRE, "Pregex", "__init__")
-    for fn, node in writes:
-        ok = False
-        if fn.node is init.node:
-            st = model.parents.get(node)
-            while st is not None and not isinstance(st, ast.stmt):
-                st = model.parents.get(st)
-            cname = model.method(PRE, "Pregex", "__infer_type").node.name
-            is_cls_call = lambda v: isinstance(v, ast.Call) and ast.unparse(v.func).endswith(cname)
-            if isinstance(st, ast.Assign) and isinstance(st.targets[0], ast.Tuple) and len(st.targets[0].elts) == 2 \
-                    and st.targets[0].elts[1] is node:
-                if is_cls_call(st.value):
-                    ok = True
-                elif isinstance(st.value, ast.Name):
-                    # `r = T.get(text); if r is None: r = classify(text); T[text] = r` - the pair comes from the classifier,
-                    # possibly through a memo of it (whether that memo is exact is C20's business)
-                    binds = [a.value for a in ast.walk(init.node) if isinstance(a, ast.Assign) and
-                             any(isinstance(t, ast.Name) and t.id == st.value.id for t in a.targets)]
-                    lookups = [b for b in binds if isinstance(b, ast.Subscript) or
-                               (isinstance(b, ast.Call) and isinstance(b.func, ast.Attribute) and b.func.attr == "get")]
-                    others = [b for b in binds if b not in lookups]
-                    ok = bool(others) and all(is_cls_call(b) for b in others)
-                elif isinstance(st.value, ast.Tuple) and len(st.value.elts) == 2:
-                    # `r = classify(text); self.t, self.flag = r.type, r.repeatable` (or r[0], r[1])
-                    src = st.value.elts[1]
-                    base = src.value if isinstance(src, (ast.Attribute, ast.Subscript)) else None
-                    if isinstance(base, ast.Name):
+    if _layout(model) is not None:
+        # Semantic form (no private field name, classifier signature or storage shape assumed).  The probed layout has
+        # established that the constructor stores the classifier's second component in exactly one slot (the forced
+        # answers True / False appeared there and nowhere else); what remains: the accessor returns that slot, and
+        # nothing but the constructor writes the field that holds it.
+        from ..interp import Hooks as _H
+        for rep in (True, False):
+            op = make_operand(model, "pq", "Other" if rep else "Assertion", rep)
+            try:
+                got = Interp(model, _H()).call(FuncRef(isrep, op, True), [])
+            except PyRaise as e:
+                got = "!" + e.name
+            ctx.instance("R-FLAGSRC", key=("accessor", rep), sample=f"_is_repeatable() of an operand classified repeatable={rep}: {got!r}")
+            if got is not rep:
+                ctx.violation("R-FLAGSRC", isrep.relpath, isrep.short, "return", "_is_repeatable does not return the flag the classifier assigned",
+                              isrep.node.lineno, detail=f"flag {rep}: returns {got!r}")
+        fld = _slot_field(model, "rep")
+        writes = []
+        for fn in model.all_functions():
+            clsname = fn.cls.name if fn.cls else None
+            for node in ast.walk(fn.node):
+                if isinstance(node, ast.Attribute) and isinstance(node.ctx, (ast.Store, ast.Del)) and mangle(node.attr, clsname) == fld:
+                    writes.append((fn, node))
+        ctx.instance("R-FLAGSRC", key="writers", sample=f"{len(writes)} store(s) to {fld}: {[w[0].short for w in writes]}")
+        for fn, node in writes:
+            if fn.node is not init.node:
+                ctx.violation("R-FLAGSRC", fn.relpath, fn.short, norm_text(model.parents.get(node)),
+                              "the field holding the repeatable flag is written outside Pregex.__init__", node.lineno)
+    else:
+        ctx.note(f"R-FLAGSRC: instance layout could not be probed ({model.__dict__.get('_layout_error')}); syntactic form used")
+        body = [s for s in isrep.node.body if not (isinstance(s, ast.Expr) and isinstance(s.value, ast.Constant))]
+        fld = None
+        if len(body) == 1 and isinstance(body[0], ast.Return) and isinstance(body[0].value, ast.Attribute) \
+                and isinstance(body[0].value.value, ast.Name) and body[0].value.value.id == "self":
+            fld = mangle(body[0].value.attr, "Pregex")
+        ctx.instance("R-FLAGSRC", key="accessor", sample=f"_is_repeatable returns self.{fld}")
+        if fld is None:
+            ctx.violation("R-FLAGSRC", isrep.relpath, isrep.short, "return", "_is_repeatable does not return the flag field",
+                          isrep.node.lineno)
+            from ..absdom import F
+            fld = F(model).repeatable
+        writes = []
+        for fn in model.all_functions():
+            clsname = fn.cls.name if fn.cls else None
+            for node in ast.walk(fn.node):
+                if isinstance(node, ast.Attribute) and isinstance(node.ctx, (ast.Store, ast.Del)) \
+                        and mangle(node.attr, clsname) == fld:
+                    writes.append((fn, node))
+        ctx.instance("R-FLAGSRC", key="writers", sample=f"{len(writes)} store(s) to {fld}: {[w[0].short for w in writes]}")
+        init = model.method(PRE, "Pregex", "__init__")
+        for fn, node in writes:
+            ok = False
+            if fn.node is init.node:
+                st = model.parents.get(node)
+                while st is not None and not isinstance(st, ast.stmt):
+                    st = model.parents.get(st)
+                cname = model.method(PRE, "Pregex", "__infer_type").node.name
+                is_cls_call = lambda v: isinstance(v, ast.Call) and ast.unparse(v.func).endswith(cname)
+                if isinstance(st, ast.Assign) and isinstance(st.targets[0], ast.Tuple) and len(st.targets[0].elts) == 2 \
+                        and st.targets[0].elts[1] is node:
+                    if is_cls_call(st.value):
+                        ok = True
+                    elif isinstance(st.value, ast.Name):
+                        # `r = T.get(text); if r is None: r = classify(text); T[text] = r` - the pair comes from the classifier,
+                        # possibly through a memo of it (whether that memo is exact is C20's business)
                         binds = [a.value for a in ast.walk(init.node) if isinstance(a, ast.Assign) and
-                                 any(isinstance(t, ast.Name) and t.id == base.id for t in a.targets)]
-                        ok = len(binds) == 1 and is_cls_call(binds[0])
-        if not ok:
-            ctx.violation("R-FLAGSRC", fn.relpath, fn.short, norm_text(model.parents.get(node)),
-                          "the repeatable flag is written outside `self.__type, self.__repeatable = __infer_type(...)`",
-                          node.lineno)
-    if not any(fn.node is init.node for fn, _ in writes):
-        ctx.violation("R-FLAGSRC", init.relpath, init.short, "<missing store>",
-                      "Pregex.__init__ no longer stores the repeatable flag from __infer_type", init.node.lineno)
+                                 any(isinstance(t, ast.Name) and t.id == st.value.id for t in a.targets)]
+                        lookups = [b for b in binds if isinstance(b, ast.Subscript) or
+                                   (isinstance(b, ast.Call) and isinstance(b.func, ast.Attribute) and b.func.attr == "get")]
+                        others = [b for b in binds if b not in lookups]
+                        ok = bool(others) and all(is_cls_call(b) for b in others)
+                    elif isinstance(st.value, ast.Tuple) and len(st.value.elts) == 2:
+                        # `r = classify(text); self.t, self.flag = r.type, r.repeatable` (or r[0], r[1])
+                        src = st.value.elts[1]
+                        base = src.value if isinstance(src, (ast.Attribute, ast.Subscript)) else None
+                        if isinstance(base, ast.Name):
+                            binds = [a.value for a in ast.walk(init.node) if isinstance(a, ast.Assign) and
+                                     any(isinstance(t, ast.Name) and t.id == base.id for t in a.targets)]
+                            ok = len(binds) == 1 and is_cls_call(binds[0])
+            if not ok:
+                ctx.violation("R-FLAGSRC", fn.relpath, fn.short, norm_text(model.parents.get(node)),
+                              "the repeatable flag is written outside `self.__type, self.__repeatable = __infer_type(...)`",
+                              node.lineno)
+        if not any(fn.node is init.node for fn, _ in writes):
+            ctx.violation("R-FLAGSRC", init.relpath, init.short, "<missing store>",
+                          "Pregex.__init__ no longer stores the repeatable flag from __infer_type", init.node.lineno)
+
     try:
         f_inf, rets = infer_returns(model)
     except AnalysisError as e:
@@ -179,9 +212,9 @@ def run(ctx, model):
 
     def classify(text):
         if text not in _cls_cache:
-            it = Interp(model, _PlainHooks(), fuel=400000)
             try:
-                t, flag = it.call(FuncRef(f_inf), [text])
+                from ..absdom import classify_real
+                t, flag = classify_real(model, text)
                 _cls_cache[text] = (getattr(t, "name", str(t)), flag)
             except PyRaise as e:
                 _cls_cache[text] = ("!" + e.name, None)
